@@ -14,7 +14,9 @@ import json
 import os
 from lib import vf
 
-RULE = ("op sequences (constructor empty/new/from_iter + up to 60 inserts over <=13 keys) with every observable "
+RULE = ("deterministic first: maps of 0..9 keys built by `new`, by `from_iter` and by inserts into the empty map, every "
+        "position overwritten in turn (values compared afterwards), growth past the specialisations; then random "
+        "op sequences (constructor empty/new/from_iter + up to 60 inserts over <=13 keys) with every observable "
         "(len, iter, keys, to_vec, get, get_index, get_pair) compared after every op; non-trivial = the key set "
         "reaches >=5 keys (crosses the small-size specialisations) or some key is overwritten; distinct by op sequence")
 
@@ -23,7 +25,9 @@ RULE_STATE = (
     "sequence of 1-5 queries on it; each query = the features its traversal / access model contribute (stub "
     "services building the model of the query at hand), its state_features (parsed by the real code from serde JSON), "
     "0-8+ operations; every query's observables are compared with M / S computed for that query ALONE. "
-    "215 deterministic boundary cases first (a query overriding a model-contributed feature; overriding initial "
+    "225 deterministic boundary cases first (query overrides in another unit than the model's with non-zero initial "
+    "values, read in both units; runs of 50 / 200 / 500 adds in a unit other than the feature's, zero and non-zero "
+    "increments; a query overriding a model-contributed feature; overriding initial "
     "values of the 4 features of an electric-vehicle model; n = 0..7 configured + k = 0..3 model features with and "
     "without override / with both models declaring the last one; an override at every position of 1..8 features; "
     "configured features re-declared by a model and overridden; one name from both models / twice from one model; "
@@ -41,9 +45,12 @@ RULE_STATE = (
     "0-3 overrides (3/4 valid overrides of model features, at most one invalid entry per query), 1/4 of the cases "
     "continue with 1-4 follow-up queries on the same application (same query again / same overrides with other "
     "definitions / models re-declaring the same names with other definitions / an unrelated query), operations: "
-    "get/set/add/round-trip/get-add-get in a random unit of the feature's family, the four custom codecs, raw writes "
+    "get/set/add/round-trip/get-add-get/n-fold add (n up to 500) in a random unit of the feature's family (1/4 of "
+    "the adds with a zero increment, which must leave the value as it is; the slot after an add is judged against "
+    "old + n * dx * k within 2^-40 relative - the 0.1 % band only applies to get(set) in one foreign unit), the four custom codecs, raw writes "
     "into custom slots followed by a codec read, 1/10 deliberately ill-typed, 1/12 on an undeclared name; observables: "
-    "result class, len, iteration order, slot of each of 15 probe names (observed through get_delta), initial state, "
+    "result class, len, iteration order, what each feature IS in the built model (kind, unit / custom type, label, "
+    "codec - cross-checked with get_*_unit and serialize_state_model), slot of each of 15 probe names (observed through get_delta), initial state, "
     "and after every operation its result and the whole state vector as binary64 bit patterns; the model built by "
     "SearchApp::build_search_instance must show the same observables as collect_features + extend; non-trivial = "
     "the final model of some query has >= 5 features, or some name is defined more than once, or the case has more "
